@@ -24,6 +24,7 @@ type RunOpts struct {
 	Verbose  bool
 	Overlay  map[string][]byte
 	Expected map[string]string // obligation -> ledger status (scheduling hints only)
+	NoSolve  bool              // generate only (maintenance)
 }
 
 func envOr(k, d string) string {
@@ -320,8 +321,10 @@ func verifyRun(opts *RunOpts) (*Run, error) {
 	}
 	run.GenS = time.Since(t1).Seconds()
 	t2 := time.Now()
-	if err := run.solve(); err != nil {
-		return nil, err
+	if !opts.NoSolve {
+		if err := run.solve(); err != nil {
+			return nil, err
+		}
 	}
 	run.SolveS = time.Since(t2).Seconds()
 	return run, nil
